@@ -245,7 +245,14 @@ int main(int argc, char ** argv) {
 	if (argc > 3) g_timeout = atoi(argv[3]);
 
 	if (__sanitizer_set_death_callback) __sanitizer_set_death_callback(on_san_death);
-	else { signal(SIGSEGV, on_signal); signal(SIGBUS, on_signal); signal(SIGABRT, on_signal); signal(SIGFPE, on_signal); signal(SIGILL, on_signal); }
+	else {
+		/* fatal signals are reported from an alternate stack, so that stack exhaustion still leaves its event */
+		static char altstack[1 << 16];
+		stack_t ss = { .ss_sp = altstack, .ss_size = sizeof altstack, .ss_flags = 0 };
+		sigaltstack(&ss, NULL);
+		struct sigaction sa; memset(&sa, 0, sizeof sa); sa.sa_handler = on_signal; sa.sa_flags = SA_ONSTACK;
+		sigaction(SIGSEGV, &sa, NULL); sigaction(SIGBUS, &sa, NULL); sigaction(SIGABRT, &sa, NULL); sigaction(SIGFPE, &sa, NULL); sigaction(SIGILL, &sa, NULL);
+	}
 	signal(SIGALRM, on_signal);
 
 	if (!getenv("VERIF_KEEP_STDERR")) {
